@@ -17,6 +17,7 @@ pub fn judge_case(ls: &LangSet, code: &str, n: u64, phrase: &str, marker: &str, 
     let digits = format!("{}{}", n, marker);
     let conj = spell::info(code).conj;
     let (text, expected) = in_context(cid, phrase, &digits, f, p, q, conj);
+    ls.polyglot_probe(code, phrase, &text);
     judge_roundtrip(api, phrase, &text, &expected, &digits, n as f64, true, cid == 0)
 }
 
